@@ -123,3 +123,57 @@ func c19Nfdc(c *h.Ctx, id string, r *rand.Rand) {
 	}
 	c.Distinct(fmt.Sprintf("nfdc|refused=%d", min(total-len(calls), 4)))
 }
+
+// c19NfdcBurst: a large table change (a neighbour with thousands of prefixes becomes reachable)
+// issues more commands at once than the command queue holds (4096) while the thread works them
+// off at about one per millisecond: the issuer has to wait, nothing may be lost.
+func c19NfdcBurst(c *h.Ctx, id string, r *rand.Rand) {
+	c.Eval(1)
+	eng := simeng.NewEngine(simeng.NewTimer())
+	m := nfdc.NewNfdMgmtThread(eng)
+	go m.Start()
+	n := 4300 + r.Intn(500)
+	issued := make(chan struct{})
+	go func() {
+		defer close(issued)
+		for i := 0; i < n; i++ {
+			nm, _ := enc.NameFromStr(fmt.Sprintf("/burst/p%d", i))
+			m.Exec(nfdc.NfdMgmtCmd{Module: "rib", Cmd: "register", Args: &mgmt.ControlArgs{Name: nm, FaceId: u64p(101), Origin: u64p(127), Cost: u64p(1)}, Retries: 3})
+		}
+	}()
+	select {
+	case <-issued:
+	case <-time.After(120 * time.Second):
+		c.Inconclusive("issuing the burst did not finish within 120 s")
+		return
+	}
+	var calls []simeng.MgmtCall
+	for dl := time.Now().Add(120 * time.Second); ; time.Sleep(5 * time.Millisecond) {
+		calls, _ = eng.MgmtCalls()
+		if len(calls) >= n || time.Now().After(dl) {
+			break
+		}
+		// no progress for 3 s means the queue is empty and the rest was lost
+		if len(calls) < n {
+			before := len(calls)
+			time.Sleep(3 * time.Second)
+			calls, _ = eng.MgmtCalls()
+			if len(calls) == before {
+				break
+			}
+		}
+	}
+	m.Stop()
+	c.Count("nfdc_burst_commands", int64(n))
+	seen := map[string]bool{}
+	for _, cl := range calls {
+		if a, ok := cl.Args.(*mgmt.ControlArgs); ok && a.Name != nil {
+			seen[a.Name.String()] = true
+		}
+	}
+	if len(seen) != n {
+		c.Violation("C19:command-lost-in-burst", id, fmt.Sprintf("%d register commands were issued in one burst (the queue holds 4096), the forwarder received %d of them", n, len(seen)), map[string]any{"issued": n, "received": len(seen)})
+		return
+	}
+	c.Distinct("nfdc|burst-beyond-queue")
+}
